@@ -904,6 +904,9 @@ func init() {
 			k.MaxGas = -1
 			k.NumEthUsers = 2 + rng.Intn(3)
 			su := &Setup{Knobs: k, Sess: gen.NewSession()}
+			if rng.Intn(2) == 0 {
+				su.Sess.M["olvm-basefee"] = true // calls that panic inside the EVM (answered with an error code)
+			}
 			su.Replicas = append(su.Replicas, core.ReplicaConf{Identity: "x0", Quiet: true, Recent: 10, Every: 100, Cycles: 10, WitnessInitEarly: true})
 			su.Gens = append(gen.ByName("olvm", "olvm-transfer", "send", "sendpool"), c17Mix{})
 			su.Blocks = 30 + rng.Intn(31)
